@@ -336,6 +336,19 @@ fn const_json<'tcx>(tcx: TyCtxt<'tcx>, env: TypingEnv<'tcx>, c: &mir::ConstOpera
                     if !o.has("bytes") && !o.has("str") {
                         o.set("ptr", J::Bool(true));
                         o.set("alloc", dump_alloc(tcx, prov.alloc_id(), 2));
+                        // `&Enum::Variant` (promoted operand of a comparison): name the variant
+                        if let Some(inner) = inner {
+                            if let ty::Adt(def, _) = inner.kind() {
+                                if def.is_enum() {
+                                    let cv = ConstValue::Indirect { alloc_id: prov.alloc_id(), offset: off };
+                                    if let Some(d) = tcx.try_destructure_mir_constant_for_user_output(cv, inner) {
+                                        if let Some(v) = d.variant {
+                                            o.set("variant", J::Str(def.variant(v).name.to_string()));
+                                        }
+                                    }
+                                }
+                            }
+                        }
                     }
                 }
             }
@@ -375,6 +388,15 @@ fn const_json<'tcx>(tcx: TyCtxt<'tcx>, env: TypingEnv<'tcx>, c: &mir::ConstOpera
             if !o.has("bytes") {
                 o.set("indirect", J::Bool(true));
                 o.set("alloc", dump_alloc(tcx, alloc_id, 2));
+                if let ty::Adt(def, _) = t.kind() {
+                    if def.is_enum() {
+                        if let Some(d) = tcx.try_destructure_mir_constant_for_user_output(v, t) {
+                            if let Some(vi) = d.variant {
+                                o.set("variant", J::Str(def.variant(vi).name.to_string()));
+                            }
+                        }
+                    }
+                }
             }
         }
     }
